@@ -51,7 +51,7 @@ SPEC = {
                  "C08_late_enqueue_backs_out", "C08_unbuffered_queue_empty", "C08_counter_in_int32_range", "C08_no_block_forever_partial", "C08_waits_for_ranked", "C08_statement_safety",
                  "C08_no_block_forever", "C08_enqueue_send_unblocked_by_writer", "C08_stop_wait_released", "C08_statement_holds",
                  "C08_store_error_safety", "C08_store_error_crash_is_final", "C08_failed_commit_batch_never_done",
-                 "C08_store_error_stop_never_returns_witness",
+                 "C08_store_error_stop_never_returns_witness", "C08_timeout_alternative_needed_witness",
                  "C08_old_racing_enqueue_witness", "C08_old_stop_waits_witness", "C08_old_no_block_forever_witness",
                  "C08_old_statement_witness", "C08_loop_condition_order_witness", "C08_skeleton_Enqueue", "C08_skeleton_startBatchWriter",
                  "C08_skeleton_StopBatchWriter", "C08_skeleton_Flush", "C08_skeleton_runBatchWriter",
@@ -64,11 +64,13 @@ SPEC = {
                  "every queue size: buffered (bounded FIFO) and 0 = unbuffered (the send is a rendezvous hand-off to the writer's blocking or non-blocking select)",
                  "the batch time-out timer may fire at any step (abstract time)",
                  "every batch size: the collector's size test `writtenValuesCounter >= batchSize` is the model's `bsize <= batch.length + 1`; sizes below 1 (one object per batch since fix 681b215) are the model's b = 0",
-                 "store errors (Batched()/Commit() failing => writer panics) are NOT modelled; the Int32 counter is modelled as an integer, exact below 2^31 (C08_counter_in_int32_range)",
+                 "store errors: sysE = sys + Batched()/Commit() of the writer goroutine may fail at any call => panic in the writer goroutine = death of the whole system (dead flag, no successor); a failed Commit applies nothing; simulated by sys (sysE_sim)",
+                 "the Int32 counter is modelled as an integer, exact below 2^31 (C08_counter_in_int32_range)",
+                 "variants kept for witnesses only: sysOld (Enqueue before the second fix), sysSwapped (loop condition loads swapped), sysNoTimer (no time-out alternative + Stop's wake-up flush, seeded r6-3)",
                  "BatchWriteObject implementations are the harness's (flag test-and-set, version counter, write modes set / delete / delete+set / set+delete; a delete is the value 0 of the trace predicate)"],
     "manifest": {
-        "text": "Protocol model (Hive.Conc.Sys) of BatchedWriter Enqueue/Stop/Flush/writer goroutine/collector with arbitrary queue size (0 = unbuffered rendezvous), batch size and thread pool; the property is the decidable trace predicate Spec.BatchWriter.ok/okFinal. C08_statement_holds proves the statement at full strength, no hypothesis on the schedule: C08_ok (no check of the predicate ever fails), C08_written_before_done, C08_done_once_per_scheduling, C08_store_is_last_write, C08_stop_waits (per Stop call, any number of overlapping Stop callers), C08_stop_waits_state, C08_racing_enqueue_all_or_nothing (okFinal once the writer has terminated), C08_late_enqueue_backs_out, C08_unbuffered_queue_empty, and the third clause C08_no_block_forever: from every reachable configuration and for every unfinished call there is a continuation, in which the calling thread does not move, after which it can take a step - constructed by well-founded descent (blocked queue send: the writer alone reaches a select, C08_enqueue_send_unblocked_by_writer; Stop in Wait: announced producers finish, the writer drains, commits and exits, C08_stop_wait_released; mutex: the holder releases; Once: the body thread finishes), on top of C08_waits_for_ranked (waits-for ranks Once > startStopMutex > WaitGroup/queue > writer) and C08_no_block_forever_partial (no reachable deadlock). Three defects were repaired (writeWg.Add before go; Enqueue counts before it checks running; the collector appends instead of indexing, so batch sizes below 1 no longer kill the process); the old Enqueue protocol is kept as sysOld with proved violating schedules C08_old_*_witness. Tie: every run's event trace (harness BatchWriteObjects writing set / delete / delete+set / set+delete + store wrapper that reads the store back after every commit, one mutex-ordered log) is judged by the Lean driver with the same predicate and by an independent index-based Go oracle (last BatchWrite per object wins, per commit and at the end); stress runs have 1-3 concurrent Stop callers, batch time-outs negative / 0 / 1ns / 1..50 ms / 250 ms, batch sizes 1..4 or default and - in a child process - 0, -1 and math.MinInt, queue sizes 0 (unbuffered) / 1..4 / default; same-batch scenario re-enqueues one object into one open batch with every pair of write modes; thousands of fresh writers per run race their very first Enqueue with StopBatchWriter (and a second Enqueue) from a spin barrier, each with a watchdog; the formerly failing schedules and a two-overlapping-Stops schedule are forced on the real code (verif yield point in Enqueue, BatchWriteScheduled callback), on buffered and unbuffered queues, and must reproduce, per participant, the model's trace on the corresponding Lean schedule; regenerated synchronisation skeletons (C08_skeleton_*), type facts (C08_skeleton_type_*) and normalised statements of all anchored functions, option constructors, NewBatchedWriter, newBatchCollector and the default options (C08_stmts_*).",
-        "note": "Trusted: Lean kernel; hand-written model of batch_writer.go/batch_collector.go (tied by trace predicate on real traces, forced-schedule replay, skeleton / type / statement regeneration); Go sync primitive semantics (sequentially consistent atomics, Once, Mutex, WaitGroup, buffered and unbuffered channels, select) as modelled; store errors not modelled (the writer goroutine panics); counter exact below 2^31 concurrent announcements; liveness as 'every blocked call can be unblocked by a finite continuation that does not move it' (no scheduler / fairness model).",
+        "text": "Protocol model (Hive.Conc.Sys) of BatchedWriter Enqueue/Stop/Flush/writer goroutine/collector with arbitrary queue size (0 = unbuffered rendezvous), batch size and thread pool; the property is the decidable trace predicate Spec.BatchWriter.ok/okFinal. C08_statement_holds proves the statement at full strength, no hypothesis on the schedule: C08_ok (no check of the predicate ever fails), C08_written_before_done, C08_done_once_per_scheduling, C08_store_is_last_write, C08_stop_waits (per Stop call, any number of overlapping Stop callers), C08_stop_waits_state, C08_racing_enqueue_all_or_nothing (okFinal once the writer has terminated), C08_late_enqueue_backs_out, C08_unbuffered_queue_empty, and the third clause C08_no_block_forever: from every reachable configuration and for every unfinished call there is a continuation, in which the calling thread does not move, after which it can take a step - constructed by well-founded descent (blocked queue send: the writer alone reaches a select, C08_enqueue_send_unblocked_by_writer; Stop in Wait: announced producers finish, the writer drains, commits and exits, C08_stop_wait_released; mutex: the holder releases; Once: the body thread finishes), on top of C08_waits_for_ranked (waits-for ranks Once > startStopMutex > WaitGroup/queue > writer) and C08_no_block_forever_partial (no reachable deadlock). Store errors are modelled as the code has them (sysE: any Batched()/Commit() call of the writer goroutine may fail, the goroutine panics, the process dies; simulated by sys): C08_store_error_safety (the predicate holds up to the crash), C08_store_error_crash_is_final, C08_failed_commit_batch_never_done (objects of a batch whose Commit failed: written, not committed, never done, nothing of it in the store), C08_store_error_stop_never_returns_witness (the third clause cannot hold then: a waiting Stop never returns); C08_timeout_alternative_needed_witness (without the time-out alternative of collectValues, Stop waking the writer by a flush request instead, a proved schedule deadlocks with an object written and never committed). Three defects were repaired (writeWg.Add before go; Enqueue counts before it checks running; the collector appends instead of indexing, so batch sizes below 1 no longer kill the process); the old Enqueue protocol is kept as sysOld with proved violating schedules C08_old_*_witness. Tie: every run's event trace (harness BatchWriteObjects writing set / delete / delete+set / set+delete + store wrapper that reads the store back after every commit, one mutex-ordered log) is judged by the Lean driver with the same predicate and by an independent index-based Go oracle (last BatchWrite per object wins, per commit and at the end); stress runs have 1-3 concurrent Stop callers, batch time-outs negative / 0 / 1ns / 1..50 ms / 250 ms, batch sizes 1..4 or default and - in a child process - 0, -1 and math.MinInt, queue sizes 0 (unbuffered) / 1..4 / default; same-batch scenario re-enqueues one object into one open batch with every pair of write modes; thousands of fresh writers per run race their very first Enqueue with StopBatchWriter (and a second Enqueue) from a spin barrier, each with a watchdog; the formerly failing schedules and a two-overlapping-Stops schedule are forced on the real code (verif yield point in Enqueue, BatchWriteScheduled callback), on buffered and unbuffered queues, and must reproduce, per participant, the model's trace on the corresponding Lean schedule; forced flush scenarios (one flush spanning several batches with the collector replaced inside the flush; a flush request pending while Stop clears running) and store-fail (child process, k-th Commit()/Batched() of the store fails: the process must die there, nothing done / committed / returned afterwards) each reproduce the model's witness run; every run's writer-goroutine log including its store calls (Batched, Cancel) and its termination must be a labelled run of the model's writer (wconfs); regenerated synchronisation skeletons (C08_skeleton_*), type facts (C08_skeleton_type_*) and normalised statements of all anchored functions, option constructors, NewBatchedWriter, newBatchCollector and the default options (C08_stmts_*).",
+        "note": "Trusted: Lean kernel; hand-written model of batch_writer.go/batch_collector.go (tied by trace predicate on real traces, forced-schedule replay, skeleton / type / statement regeneration); Go sync primitive semantics (sequentially consistent atomics, Once, Mutex, WaitGroup, buffered and unbuffered channels, select) as modelled; a failed Commit applies nothing (atomic batches); counter exact below 2^31 concurrent announcements; liveness as 'every blocked call can be unblocked by a finite continuation that does not move it' (no scheduler / fairness model).",
         "technique": "Lean 4 inductive invariants over an interleaving semantics with arbitrary thread pools + constructed unblocking continuations by well-founded descent + decidable trace predicate evaluated on recorded traces + forced-schedule replay",
     },
     "assumptions": ["producer identifiers distinct; every thread starts outside a call (Init)",
